@@ -65,6 +65,14 @@ SNIPPETS = [
 ¶enum Color@ { RED, § GREEN(2), BLUE; ¶Color@() { } ¶Color@(int k) { } }
 ¶interface Shape@ § { ¶int area(); ¶default int twice() § { ¶return 2 * area(); } }
 """,
+    # double-brace initialisation, array initialisers, nested generics with wildcards
+    """¶static int dbl@(int n) {
+  ¶List<String> l = new ArrayList<String>() § {{ ¶add("x"); ¶add("y" § + n); }};
+  ¶Map<String, Integer> m = new HashMap<String, Integer>() {{ put("a", 1); ¶put("b", § 2); }};
+  ¶int[][] tab = { { 1, 2 }, § { 3 }, {} };
+  ¶return l.size() + m.size() + tab[0].length;
+}
+""",
 ]
 
 
